@@ -462,6 +462,11 @@ class CFG:
                         a0 = a9.strip()
                         if a0.k == "UnaryOperator" and a0.j.get("op") == "&":
                             knames.append(render(a0.children[0]))
+                if n.k == "CallExpr" and n.j.get("callee") not in ("__errno_location", None) and n.j.get("callee") not in PURE_CALLS:
+                    # any routine may set errno: what was known about it (errno = 0 before a conversion) is gone after the call
+                    for a in list(fd):
+                        if "__errno_location" in a:
+                            del fd[a]
                 stepped = None
                 if n.k == "UnaryOperator" and n.j.get("op") in ("++", "--") and knames and isinstance(fd.get("=" + knames[0]), int) and track(knames[0]):
                     stepped = (knames[0], fd["=" + knames[0]] + (1 if n.j["op"] == "++" else -1))
